@@ -30,7 +30,7 @@ _real_perf = time.perf_counter
 
 def scratch_base():
     base = SHM or os.environ.get("TMPDIR") or "/var/tmp"
-    d = os.path.join(base, f"asimap-verif-{os.getpid()}")
+    d = os.path.join(base, f"asimap-verif-{os.getpid():08d}")
     os.makedirs(d, exist_ok=True)
     return d
 
